@@ -80,6 +80,7 @@ func (p *Prog) beginFuncCallbacks() map[*ssa.Function][]ssa.CallInstruction {
 func (p *Prog) dbOrigins(fn *ssa.Function, v ssa.Value) []DBOrigin {
 	seen := map[string]bool{}
 	var out []DBOrigin
+	sawTxParam := ""
 	var trace func(fn *ssa.Function, v ssa.Value, depth int)
 	add := func(o DBOrigin) {
 		k := o.String() + o.Site
@@ -187,6 +188,9 @@ func (p *Prog) dbOrigins(fn *ssa.Function, v ssa.Value) []DBOrigin {
 				add(DBOrigin{Kind: "tx", Closure: fn})
 				return
 			}
+			if isPgxTx(x.Type()) {
+				sawTxParam = "parameter " + x.Name() + " of " + shortFn(fn)
+			}
 			// follow callers
 			idx := -1
 			for i, prm := range fn.Params {
@@ -237,6 +241,11 @@ func (p *Prog) dbOrigins(fn *ssa.Function, v ssa.Value) []DBOrigin {
 		}
 	}
 	trace(fn, v, 0)
+	if len(out) == 0 && sawTxParam != "" {
+		// only cycles through pgx.Tx-typed parameters (interface recursion, method values): by type a
+		// transaction, root not resolvable
+		out = append(out, DBOrigin{Kind: "txparam", Note: sawTxParam})
+	}
 	sort.Slice(out, func(i, j int) bool { return out[i].String() < out[j].String() })
 	return out
 }
